@@ -807,10 +807,14 @@ class _MissingImportFinder:
         if typecomment is None:
             return
         node: Union[ast.Module, ast.FunctionType]
-        if '->' in typecomment:
-            node = ast.parse(typecomment, mode='func_type')
-        else:
-            node = ast.parse(typecomment)
+        try:
+            if '->' in typecomment:
+                node = ast.parse(typecomment, mode='func_type')
+            else:
+                node = ast.parse(typecomment)
+        except SyntaxError:
+            # Not a type comment after all ("# type: see below").
+            return
 
         self.visit(node)
 
